@@ -196,16 +196,19 @@ Lemma istep_pair s o : istep s o = (fst (istep s o), snd (istep s o)).
 Proof. destruct (istep s o); reflexivity. Qed.
 
 (** ** rehashing: allocation of the new table and the moves *)
-Lemma alloc_abs hm (bs : list (list item)) s n : absrel s bs nopend -> 0 < n ->
-  table_ok hm (n - 1) (repeat [] n) /\ absrel s (repeat [] n) (fun x => In x (List.concat bs)).
+Lemma alloc_table_ok hm n : 0 < n -> table_ok hm (n - 1) (repeat [] n).
 Proof.
-  intros (Hnd & Hs) Hn. split.
-  - split; [rewrite repeat_length; lia|]. split.
-    + intros b x Hx. rewrite get_b_repeat in Hx. destruct Hx.
-    + intros b. rewrite get_b_repeat. constructor.
-  - split; auto. intros x. rewrite Hs, in_concat_get. split.
-    + intros [H|[]]. now right.
-    + intros [(b & Hx)|H]; [rewrite get_b_repeat in Hx; destruct Hx|now left].
+  intros Hn. split; [rewrite repeat_length; lia|]. split.
+  - intros b x Hx. rewrite get_b_repeat in Hx. destruct Hx.
+  - intros b. rewrite get_b_repeat. constructor.
+Qed.
+
+Lemma alloc_abs (bs : list (list item)) s n : absrel s bs nopend ->
+  absrel s (repeat [] n) (fun x => In x (List.concat bs)).
+Proof.
+  intros (Hnd & Hs). split; auto. intros x. rewrite Hs, in_concat_get. split.
+  - intros [H|[]]. now right.
+  - intros [(b & Hx)|H]; [rewrite get_b_repeat in Hx; destruct Hx|now left].
 Qed.
 
 Lemma move_abs hm m bs s x r : table_ok hm m bs -> absrel s bs (fun y => In y (x :: r)) ->
@@ -251,6 +254,26 @@ Proof.
         destruct (Nat.eq_dec b' b) as [->|Hne].
         -- rewrite get_set_same in Hy' by exact Hblt. destruct Hy' as [<-|Hy']; [right; now left|left; eauto].
         -- rewrite get_set_other in Hy' by auto. left; eauto.
+Qed.
+
+Lemma move_table_ok hm m bs (x : item) : table_ok hm m bs ->
+  let b := hfun hm (fst x) mod S m in
+  let old := get_b bs b in
+  let new := if bucket_has (fst x) old then old else x :: old in
+  table_ok hm m (set_nth_b bs b new).
+Proof.
+  intros (Hl & Hp & Hn) b old new.
+  assert (Hblt : b < length bs) by (subst b; rewrite Hl; apply Nat.mod_upper_bound; lia).
+  subst new old. rewrite bucket_has_khas.
+  split; [now rewrite set_nth_b_length|]. split.
+  - intros b' y Hy'. destruct (Nat.eq_dec b' b) as [->|Hne].
+    + rewrite get_set_same in Hy' by exact Hblt. destruct (khas (fst x) (get_b bs b)); [now apply Hp|].
+      destruct Hy' as [<-|Hy']; [reflexivity|now apply Hp].
+    + rewrite get_set_other in Hy' by auto. now apply Hp.
+  - intros b'. destruct (Nat.eq_dec b' b) as [->|Hne].
+    + rewrite get_set_same by exact Hblt. destruct (khas (fst x) (get_b bs b)) eqn:E; [apply Hn|].
+      destruct x as [kx ox]. apply nodup_keys_cons; auto.
+    + rewrite get_set_other by auto. apply Hn.
 Qed.
 
 (** ** arithmetic of lock striping: the bucket of a hash belongs to the stripe of the hash *)
